@@ -96,6 +96,45 @@ def classify_races(run, out):
         raise Inconclusive("driver failed (rc!=0) without a race report:\n" + "\n".join(out.splitlines()[-40:]))
 
 
+def regionset_binding(run, thorough):
+    """R for RegionSet.tla: every (slice, region) edge of RegionSetCheck replayed on the real Go regionSet."""
+    d_inits, d_edges = run.tlc_edges("RegionSetGen", "RegionSet_gen.cfg", {"MaxPos": "7" if thorough else "6"}, timeout=1200)
+    walks, st = edge_cover(d_inits, d_edges, maxlen=12, rng=run.rng, extra_walks=400 if thorough else 100)
+    log("[walks] regionset: %s" % st)
+    run.cov["stages"].append(dict(stage="edge-cover", gen="regionset", **st))
+    inp = os.path.join(run.scratch, "rs_walks.json")
+    out = os.path.join(run.scratch, "rs_trace.ndjson")
+    write_json(inp, [[{k: v for k, v in s.items() if k in ("act", "r")} for s in w] for w in walks])
+    return inp, out, st["covered"] == st["edges"]
+
+
+def regionset_validate(run, out):
+    events = read_ndjson(out)
+    traces = split_traces(events)
+    viol, mr = run.tlc_monitor("RegionSetTrace", "RegionSetMonitor.cfg", out, timeout=1500)
+    res = run.tlc_trace("RegionSetTrace", "RegionSetTrace.cfg", out, timeout=1500)
+    log("[trace] %-18s %d traces %d events: conformance %s, monitor %s" % (
+        "regionset", len(traces), len(events), "accepted" if res["accepted"] else "REJECTED at line %s" % res["consumed"], viol or "ok"))
+    run.cov["evaluations"] += len(events)
+    if viol:
+        m = re.findall(r"/\\ l = (\d+)", mr.out)
+        line = int(m[-1]) - 1 if m else 1
+        start, tr = failing_trace(traces, line)
+        adds = [[e["b"], e["e"]] for e in tr[1: line - start + 1]]
+        run.violation("monitor:%s:regionSet.add:adds=%s" % (viol, json.dumps(adds, separators=(",", ":"))),
+                      "%s false on the slice the Go regionSet held after these adds: %s" % (viol, json.dumps(events[line - 1])),
+                      {"formula": viol, "trace": tr[: line - start + 1]})
+        return
+    if not res["accepted"]:
+        line = (res["consumed"] or 0) + 1
+        start, tr = failing_trace(traces, line)
+        run.inconclusive.append("SPEC-DRIFT regionset: event %d %s differs from the transcription RegionSet.tla although no formula is false; trace: %s" % (
+            line - start + 1, json.dumps(events[line - 1]) if line <= len(events) else "<end>", json.dumps(tr[: line - start + 1])))
+        return
+    run.cov["traces_validated_against_impl"] += len(traces)
+    run.cov["distinct_nontrivial"] += len({digest(t) for s, t in traces if len(t) >= 4})
+
+
 def check(run):
     thorough = run.tier == "thorough"
     run.cov["rule"] = ("behaviours = walks covering every edge of the TLC state graph of Blob.tla (sequential generation configs: all sizes/chunks/"
@@ -143,7 +182,10 @@ def check(run):
     if thorough:
         gens.append(("protocol-cache", {"Sizes": "{3}", "Chunks": "{2}", "Pers": ALLPERS, "Ops": '{"read", "cache"}',
                                         "MaxLen": "4", "MaxOps": "2", "MaxReq": "2", "MaxLoss": "1", "MaxCFail": "1"}))
-    jobs, exhaustive = [], True
+    gens.append(("history", {"Sizes": "{5, 6}" if thorough else "{5}", "Chunks": "{1}", "Pers": '{"multi"}', "Ops": '{"read"}',
+                             "MaxLen": "2", "MaxOps": "3", "MaxReq": "3", "MaxLoss": "0", "MaxCFail": "0"}))
+    rs_in, rs_out, rs_all = regionset_binding(run, thorough)
+    jobs, exhaustive = [], rs_all
     if reuse:
         jobs = json.load(open("/tmp/c06-dev/walks.json"))
         for j in jobs:
@@ -161,8 +203,8 @@ def check(run):
     inp = os.path.join(run.scratch, "walks.json")
     write_json(inp, jobs)
     free = os.path.join(run.scratch, "free.ndjson")
-    rc, out = run.go_driver("", "./fs/remote/", OVERLAY, "^TestVerifC06(Replay|Free)$",
-                            env={"VERIF_IN": inp, "VERIF_FREE_OUT": free,
+    rc, out = run.go_driver("", "./fs/remote/", OVERLAY, "^TestVerifC06(Replay|Free|RegionSet)$",
+                            env={"VERIF_IN": inp, "VERIF_FREE_OUT": free, "VERIF_RS_IN": rs_in, "VERIF_RS_OUT": rs_out,
                                  "VERIF_FREE_TRACES": "600" if thorough else "120", "VERIF_FREE_OPS": "10"}, timeout=2400)
     if rc != 0:
         classify_races(run, out)
@@ -170,6 +212,7 @@ def check(run):
         os.makedirs("/tmp/c06-dev", exist_ok=True)
         for fpath in [inp, free] + [j["out"] for j in jobs]:
             shutil.copy(fpath, "/tmp/c06-dev/")
+    regionset_validate(run, rs_out)
     for j in jobs:
         validate(run, j["out"], "replay-" + j["name"])
     validate(run, free, "free-run", conformance=False)
